@@ -34,7 +34,6 @@ type hostState struct {
 	d1       time.Duration
 	d1e      *rm.Entry
 	j        int
-	succ     int
 	raOn     bool
 	raUntil  time.Duration
 	raFrom   *rm.Entry
@@ -118,6 +117,11 @@ func (w *world) analyseLog(es []*rm.Entry, o logOpts) []*evid.Violation {
 					add(evid.V("backoff-delay-not-observed", "host %s failed request #%d (%s) at %v; request #%d is the %d. request to that host since then and arrived at %v, before %v = failure + %d x delayInit(%v)\n%s",
 						short(e.Host), s.d1e.Seq, s.d1e.Fault, s.d1, e.Seq, s.j, e.Arrive, need, s.j, w.dInit, dumpLog(es)))
 				}
+				// the client lowers its failure counter after more than 5 completed requests (successful
+				// ones, and failed ones whose response the caller closes): stop well before that
+				if s.j >= 5 {
+					s.chainEnd = true
+				}
 			}
 		}
 		// ---- state update
@@ -129,19 +133,13 @@ func (w *world) analyseLog(es []*rm.Entry, o logOpts) []*evid.Violation {
 			} else {
 				s.lastRA = 0
 				if !s.dirty && !s.chain {
-					s.chain, s.d1, s.d1e, s.j, s.succ = true, e.Done, e, 0, 0
+					s.chain, s.d1, s.d1e, s.j = true, e.Done, e, 0
 				}
 			}
 			s.dirty = true
 			s.lastFail = e
 		case ec.kind == "ok":
 			s.lastFail = nil
-			if s.chain && !s.chainEnd {
-				s.succ++
-				if s.succ >= 5 {
-					s.chainEnd = true
-				}
-			}
 		case ec.kind == "lack" || ec.kind == "lack-injected" || ec.kind == "noeffect":
 			s.lastFail = nil
 		default:
